@@ -565,7 +565,8 @@ def do_check(prop, tier, seed, scale=1.0, jobs=NCPU):
         ev = dict(
             property_id=prop, tier=tier, seed=seed, level=spec["level"],
             coverage=dict(
-                evaluations=total.runs,
+                evaluations=(probes.get(spec["evaluations_probe"], 0) + total.runs) if spec.get("evaluations_probe") else total.runs,
+                seeded_plans_executed=total.runs,
                 distinct_nontrivial=distinct_plans,
                 rule=spec["rule"],
                 samples=samples[:4],
